@@ -253,18 +253,34 @@ static void mode_c07mb() {
         Rng r(M.seed, c, 72);
         Setup s = gen_setup(r, false, M.thorough());
         if (s.nb < 2) s.nb = 2 + (uint32_t)r.range(0, 2);
+        // every other case keeps the train's spacing and asks the same field object for the wake potential first (one object serving both
+        // requests, the last one before the spectrum being the wake of the whole train); the others are the radiation field as main() builds it
+        uint32_t maxbucket = 0; for (auto bk : s.buckets) maxbucket = std::max<uint32_t>(maxbucket, bk);
+        const bool wake_before = ((c / 2) % 2 == 1) && s.spacing > 0 && s.buckets.size() == s.nb && s.N >= (size_t)maxbucket * s.spacing + s.n;
+        if (!wake_before) {
         s.buckets.clear(); for (uint32_t b = 0; b < s.nb; b++) s.buckets.push_back(s.nb - 1 - b);
         s.spacing = 0;
         s.N = pick_length(r, s.n, M.thorough());
-        int model = (c % 11 == 10) ? 5 : (int)(c % 5); if (model == 2 && s.N > 600) s.N = 256;
+        }
+        int model = (c % 11 == 10) ? 5 : (int)(c % 5);
+        if (model == 2 && s.N > 600) { if (wake_before) model = 0; else s.N = 256; }      // (Airy sums are slow; the train's own length is kept when its wake is requested)
         std::string mname; fill_passive(r, s, model, mname);
         double cutoff = (c / 5) % 2 ? r.logu(1e9, 1e12) : 0;
         M.begin_case(c, "c07mb " + mname + " " + s.descr());
         auto ps = make_grid(s);
         std::vector<double> rho; int flavour = (int)r.range(0, 3);
         set_profiles(r, ps, s, rho, flavour);
+        // half of those trains are uniform (every bunch the same profile, as at the start of a run with equal currents)
+        if (wake_before && (c / 4) % 2 == 1) {
+            for (uint32_t b = 1; b < s.nb; b++) std::copy(rho.begin(), rho.begin() + s.n, rho.begin() + (size_t)b * s.n);
+            for (uint32_t b = 0; b < s.nb; b++) { boost::multi_array<projection_t, 1> p(boost::extents[s.n]); for (uint32_t x = 0; x < s.n; x++) p[x] = (float)rho[(size_t)b * s.n + x]; ps->setProjection(0, b, p); }
+            M.ev("uniform_trains_with_wake_before_spectrum");
+        }
         auto imp = std::make_shared<Impedance>(s.Z, (frequency_t)1e12);
-        ElectricField ef(ps, imp, s.buckets, 0, nullptr, s.frev, (meshaxis_t)s.revpart);
+        std::unique_ptr<ElectricField> efp(wake_before ? new ElectricField(ps, imp, s.buckets, s.spacing, nullptr, s.frev, (meshaxis_t)s.revpart, s.Ib, s.E0, s.sE, s.dt)
+                                                       : new ElectricField(ps, imp, s.buckets, 0, nullptr, s.frev, (meshaxis_t)s.revpart));
+        ElectricField& ef = *efp;
+        if (wake_before) { ef.wakePotential(); M.ev("train_spectra_requested_right_after_the_trains_wake"); }
         ef.updateCSR((frequency_t)cutoff);
         double df = ef.getFreqRuler()->delta(), dq2 = (double)ps->getDelta(0) * (double)ps->getDelta(0), hz = ef.getFreqRuler()->scale("Hertz");
         for (uint32_t b = 0; b < s.nb; b++) {
